@@ -177,6 +177,16 @@ class Select(Contract):
             index = nrng.permutation(shape[0] * shape[1])[: rng.randint(1, shape[0] * shape[1])]
             yield (arrays, index), {}
         yield ((nrng.uniform(-1, 1, 7), nrng.uniform(-1, 1, 7)), np.array([6, 0, 3])), {}
+        # pandas Series whose integer index is NOT 0..n-1 in order (a sorted / sampled DataFrame column) next to plain
+        # arrays: the index array is positional for every container
+        import pandas as pd
+
+        for _ in range(3):
+            n = rng.randint(5, 12)
+            ser = pd.Series(nrng.uniform(-5, 5, n), index=nrng.permutation(n))
+            other = nrng.uniform(-5, 5, n)
+            idx = nrng.permutation(n)[: rng.randint(1, n)]
+            yield ((ser, other) if rng.random() < 0.5 else (other, ser, pd.Series(other, index=np.arange(n)[::-1])), idx), {}
         yield (None, np.array([0])), {}
 
     def ensures(self, a, r):
@@ -184,6 +194,8 @@ class Select(Contract):
             return {"none_passes_through": r is a.arrays}
         out = {"one_selection_per_array": isinstance(r, tuple) and len(r) == len(a.arrays)}
         for k, (x, y) in enumerate(zip(a.arrays, r)):
+            if not isinstance(x, SymArr) and hasattr(x, "index") and hasattr(x, "values"):
+                x = wrap(np.asarray(x.values))  # a pandas Series: its values in POSITIONAL order
             f = flat(x)
             out["array%d_raveled_then_indexed_with_the_same_index" % k] = All(y.shape[0] == a.index.shape[0], Forall(a.index.shape, lambda t, f=f, y=y: y.at(t) == f.at(a.index.at(t))))
         return out
